@@ -115,6 +115,13 @@ class C02Driver(wl.Driver):
                         'ran while dispatching was disabled', expected=None,
                         observed=x)
                 return
+            if x['kind'] == 'add' and x.get('registered') is not True \
+                    and m.where.get(x['uid']) is not None:
+                res.div(at, 'not-registered-during-on_add', 'on_add ran for '
+                        'an attached component that is not (yet) registered '
+                        'as a listener of the world', expected=True,
+                        observed=x.get('registered'))
+                return
         got = [(x['kind'], x['uid'], _key(x['entity'])) for x in life]
         want = self.expected(rec['trans'])
         for kind, uid, e in rec['trans']:
